@@ -73,9 +73,19 @@ def _task(i, spec, rss=None):
     d = spec.get('delay')
     if d:
         time.sleep(d)
+    if spec.get('kill_children'):     # stands for the OOM killer: the master's task kills the worker processes
+        import multiprocessing as mp
+        for c in mp.active_children():
+            os.kill(c.pid, signal.SIGKILL)
+        time.sleep(0.1)
     f = spec.get('fault')
     if f == 'raise':
         raise TaskError(f'planned exception of task {i}')
+    if f and f.startswith('raise:'):
+        import builtins
+        raise getattr(builtins, f[6:])(f'planned {f[6:]} of task {i}')
+    if f and f.startswith('sysexit:'):
+        sys.exit(int(f[8:]))
     if f == 'kill':
         os.kill(os.getpid(), signal.SIGKILL)
         time.sleep(60)
@@ -85,6 +95,8 @@ def _task(i, spec, rss=None):
         logging.getLogger('skyllh.verif.c09').info('task %d record %d', i, k)
     if rss is not None:
         return (i, int(rss.random.randint(0, 2 ** 31)), float(rss.random.uniform()))
+    if spec.get('pad'):
+        return (i * i + 1, 'x' * spec['pad'])      # a result record far larger than the pipe
     return i * i + 1
 
 
@@ -139,8 +151,12 @@ def _run_call(call, recs, state):
             r = [[int(a), float(b)] for a, b in zip(rec['v'], rec['u'])]
         else:
             r = parallelize(func, args_list, call['ncpu'], rss=rss)
-        out = {'kind': 'result', 'value': r}
         state['kept'].append((r, json.dumps(r)))     # returned values are owned by the caller
+        if any(sp.get('pad') for sp in specs.values()):
+            # (value, padding) results: report the value and whether the padding arrived intact
+            r = [(x[0] if (isinstance(x, tuple) and len(x) == 2 and x[1] == 'x' * specs.get(str(j), {}).get('pad', -1))
+                  else ('damaged', j)) if specs.get(str(j), {}).get('pad') else x for j, x in enumerate(r)]
+        out = {'kind': 'result', 'value': r}
     except BaseException as ex:  # noqa
         out = {'kind': 'exc', 'type': type(ex).__name__, 'msg': str(ex)[:300]}
     out['wall'] = round(time.time() - t0, 4)
@@ -220,7 +236,8 @@ def runner_main(watchdog):
             finally:
                 os._exit(3)
         os.close(w)
-        deadline = time.time() + watchdog
+        wd = case.get('watchdog') or watchdog
+        deadline = time.time() + wd
         data = b''
         hang = False
         need = len(case['seq']) if 'seq' in case else 1
@@ -254,10 +271,10 @@ def runner_main(watchdog):
         if 'seq' in case:
             outs = [json.loads(l) for l in lines[:need]]
             if len(outs) < need:
-                outs.append({'kind': 'hang', 'watchdog': watchdog} if hang else {'kind': 'crash'})
+                outs.append({'kind': 'hang', 'watchdog': wd} if hang else {'kind': 'crash'})
             out = {'kind': 'seq', 'calls': outs}
         elif hang:
-            out = {'kind': 'hang', 'watchdog': watchdog}
+            out = {'kind': 'hang', 'watchdog': wd}
         elif not lines:
             out = {'kind': 'crash'}
         else:
@@ -339,12 +356,12 @@ def offsets(sizes):
 
 
 def mk_case(ncpu, ntasks, kind, slow=(), late=(), nlog=0, faults=(), seed=None, trials=False, bulk=(),
-            interactive=False):
+            interactive=False, pad=(), padsize=300000):
     """slow: pids sleeping at their first task; late: worker pids sleeping between result and end marker;
     faults: dicts {pid, task (local index | None), kind: raise|exit|kill|after, code, channel: hook|func}"""
     case = {'ncpu': ncpu, 'ntasks': ntasks, 'kind': kind, 'slow': sorted(slow), 'late': sorted(late),
             'nlog': nlog, 'faults': [dict(f) for f in faults], 'seed': seed, 'trials': bool(trials),
-            'bulk': sorted(bulk), 'interactive': bool(interactive)}
+            'bulk': sorted(bulk), 'interactive': bool(interactive), 'pad': sorted(pad)}
     specs, plan = {}, []
     if trials:       # Analysis.do_trials builds the argument list itself: delays only through the hook
         case['slow'] = sorted(p for p in slow if p > 0)
@@ -360,6 +377,10 @@ def mk_case(ncpu, ntasks, kind, slow=(), late=(), nlog=0, faults=(), seed=None, 
         for p in bulk:     # a worker whose first task emits far more log records than its queue's pipe holds
             if 0 < p < ncpu and sizes[p] > 0:
                 specs.setdefault(str(offs[p]), {})['nlog'] = BULK
+        for p in pad:      # every task of these processes returns a value with `padsize` bytes of padding
+            if p < ncpu:
+                for t in range(sizes[p]):
+                    specs.setdefault(str(offs[p] + t), {})['pad'] = padsize
         for p in slow:
             if p < ncpu and sizes[p] > 0:
                 specs.setdefault(str(offs[p]), {})['delay'] = SLOW
@@ -370,14 +391,22 @@ def mk_case(ncpu, ntasks, kind, slow=(), late=(), nlog=0, faults=(), seed=None, 
                 plan.append({'pid': p, 'task': None, 'action': f'sleep:{SLOW}'})
         for f in case['faults']:
             p, t = f['pid'], f.get('task')
-            f['triggers'] = bool(p < ncpu and (f['kind'] == 'after' or (t is not None and t < sizes[p])))
-            if f['kind'] == 'after':
+            f['triggers'] = bool(p < ncpu and (f['kind'] in ('after', 'midput') or (t is not None and t < sizes[p])))
+            if f['kind'] == 'midput':
+                # OPEN FINDING probe: worker p returns a record larger than the pipe; while the master is still busy
+                # with its own (slow) task the record sits half-written in the pipe and the worker is killed
+                specs.setdefault('0', {}).update({'delay': 0.4, 'kill_children': True})
+                for t2 in range(sizes[p]):
+                    specs.setdefault(str(offs[p] + t2), {})['pad'] = padsize
+                case['watchdog'] = 6
+            elif f['kind'] == 'after':
                 plan.append({'pid': p, 'task': None, 'action': f"exit-after-result:{f.get('code', 1)}"})
             elif f['channel'] == 'hook':
                 act = {'raise': 'raise', 'exit': f"exit:{f.get('code', 1)}"}[f['kind']]
                 plan.append({'pid': p, 'task': t, 'action': act})
             elif f['triggers']:
-                act = {'raise': 'raise', 'exit': f"exit:{f.get('code', 1)}", 'kill': 'kill'}[f['kind']]
+                act = {'raise': 'raise', 'exit': f"exit:{f.get('code', 1)}", 'kill': 'kill',
+                       'raisex': f"raise:{f.get('exc', 'MemoryError')}", 'sysexit': f"sysexit:{f.get('code', 0)}"}[f['kind']]
                 specs.setdefault(str(offs[p] + t), {})['fault'] = act
     case['specs'] = specs
     case['plan'] = plan
@@ -409,7 +438,7 @@ def observe_class(case, obs):
         return ['Hang']
     if k == 'exc':
         t, msg = obs['type'], obs['msg']
-        if t == 'TaskError':
+        if t in ('TaskError', 'MemoryError', 'KeyError', 'SystemExit'):
             return ['Fail', 'TaskRaised']
         if t == 'RuntimeError' and 'did not return with 0' in msg:
             return ['Fail', 'ChildDied']
@@ -431,10 +460,15 @@ def worker_actions(case, p, sizes, offs):
     nl = case['nlog']
     fl = [f for f in triggered(case) if f['pid'] == p]
     acts = []
+    if fl and fl[0]['kind'] == 'midput':
+        return [f'Worker {p}%nat APutBegin', f'Worker {p}%nat (ADie (-9))']
     if fl and fl[0]['kind'] != 'after':
         f = fl[0]
         acts += [f'Worker {p}%nat (APutLog {p * 1000 + j})' for j in range(nl * f['task'])]
-        code = {'raise': 1, 'kill': -9}.get(f['kind'], f.get('code', 1))
+        if f['kind'] in ('raise', 'raisex'):
+            acts.append(f'Worker {p}%nat ARaise')      # the exception ends worker_wrapper: exit code 1
+            return acts
+        code = {'kill': -9, 'sysexit': f.get('code', 0)}.get(f['kind'], f.get('code', 1))
         acts.append(f'Worker {p}%nat (ADie ({code}))')
         return acts
     acts += [f'Worker {p}%nat (APutLog {p * 1000 + j})' for j in range(nl * sizes[p])]
@@ -455,7 +489,7 @@ def model_exprs_for(case, order, rng, nvariants):
         sizes = split_sizes(n, k)
         offs = offsets(sizes)
         for f in triggered(case):
-            if f['kind'] == 'raise':
+            if f['kind'] in ('raise', 'raisex'):
                 raising.append(offs[f['pid']] + f['task'])
     body = '3 * x + 7' if case.get('func') == 'b' else 'x * x + 1'
     fn = f'(fun x => if existsb (Z.eqb x) {zlist(raising)} then Err RuntimeError else Ok ({body}))'
@@ -503,7 +537,7 @@ def canon_model(v):
 
 # ---- predicates (independent of the model)
 
-PUBKEYS = ('ncpu', 'ntasks', 'kind', 'slow', 'late', 'nlog', 'faults', 'seed', 'trials', 'bulk', 'interactive', 'func', 'pause',
+PUBKEYS = ('ncpu', 'ntasks', 'kind', 'slow', 'late', 'nlog', 'faults', 'seed', 'trials', 'bulk', 'interactive', 'pad', 'watchdog', 'func', 'pause',
            'reuse_args', '_seq', 'plan', 'specs')
 
 
@@ -517,7 +551,10 @@ def predicates(ctx, case, obs, oc):
         ctx.broken.append({'kind': 'harness', 'error': f'runner gave no observation: {obs}'})
         return
     if oc[0] == 'Hang':
-        ctx.violation(SITE, vkind(case, 'hang'), f"no return and no exception within {obs.get('watchdog')} s",
+        hk = 'hang'
+        if any(f['kind'] == 'midput' for f in triggered(case)) and not case.get('_seq'):
+            hk = 'hang-worker-killed-while-sending-result'
+        ctx.violation(SITE, vkind(case, hk) if hk == 'hang' else hk, f"no return and no exception within {obs.get('watchdog')} s",
                       case=pub, impl=oc, predicate='the call ends (list or exception) within bounded time')
         return
     # history probes (need no model): the arguments are inputs, returned lists are owned by the caller
@@ -629,6 +666,26 @@ def gen_cases(ctx):
             fs = [{'pid': rng.randrange(1, k), 'task': None if fk == 'after' else 0, 'kind': fk, 'code': code, 'channel': ch}]
         cases.append(mk_case(k, n, 'interactive', slow=rng.sample(range(k), rng.randint(0, k)), faults=fs,
                              nlog=rng.choice([0, 1]), interactive=True))
+    # audit follow-up: payload / volume dimension.  (a) OPEN FINDING probe (hang, every run); (b) result records far
+    # larger than the pipe, fault-free and with every fault kind; (c) bulk logging combined with raising / exiting
+    # tasks (defect repaired by cdc2ef8: a raising worker with unread log records never ended)
+    cases.append(mk_case(2, 2, 'finding-midput', faults=[{'pid': 1, 'task': None, 'kind': 'midput', 'channel': 'func'}]))
+    for (k, n) in ((2, 2), (3, 7), (4, 4)) if not th else [(k, n) for k in (2, 3, 5) for n in (2, 5, 9)]:
+        cases.append(mk_case(k, n, 'grid-big-result', pad=range(1, k), slow=rng.sample(range(k), 1)))
+        cases.append(mk_case(k, n, 'grid-big-result', pad=range(0, k), late=[rng.randrange(1, k)], nlog=1))
+    for (k, n) in ((2, 4), (3, 7)) if not th else ((2, 4), (3, 7), (4, 9), (5, 12)):
+        cs = split_sizes(n, k)
+        for p in range(1, k):
+            for (fk, ch, extra) in (('raise', 'hook', {}), ('raise', 'func', {}), ('raisex', 'func', {'exc': 'MemoryError'}),
+                                    ('raisex', 'func', {'exc': 'KeyError'}), ('sysexit', 'func', {'code': 0}),
+                                    ('sysexit', 'func', {'code': 3}), ('exit', 'hook', {'code': 1}),
+                                    ('kill', 'func', {'code': -9})):
+                f = dict({'pid': p, 'task': cs[p] - 1, 'kind': fk, 'channel': ch}, **extra)
+                cases.append(mk_case(k, n, 'fault:bulk-logs', faults=[f], bulk=[p], slow=rng.sample(range(k), 1)))
+                cases.append(mk_case(k, n, 'fault:big-result', faults=[f], pad=range(1, k)))
+            for code in (1, 0):
+                f = {'pid': p, 'task': None, 'kind': 'after', 'code': code, 'channel': 'hook'}
+                cases.append(mk_case(k, n, 'fault:big-result', faults=[f], pad=[p]))
     # B. single faults, exhaustively for small sizes, in two timing contexts
     sizes_b = [(2, 1), (2, 3), (3, 2), (3, 4), (3, 5), (4, 6), (5, 7)] if not th else \
         [(k, n) for k in range(2, 6) for n in range(1, 9)]
@@ -776,7 +833,7 @@ def judge_sequences(ctx, seqs, obs, nvariants):
             c = dict(sq['seq'][ci])
             c['_seq'] = {'name': sq['name'], 'index': ci,
                          'earlier_calls': [{k: x.get(k) for k in ('ncpu', 'ntasks', 'faults', 'slow', 'func', 'seed', 'interactive', 'late', 'kind',
-                                                                  'reuse_args', 'pause', 'trials', 'nlog', 'bulk')}
+                                                                  'reuse_args', 'pause', 'trials', 'nlog', 'bulk', 'pad')}
                                            for x in sq['seq'][:ci]]}
             c['kind'] = f"seq:{sq['name']}#{ci}"
             cases.append(c)
@@ -951,9 +1008,14 @@ def check_structure(ctx):
                 or ast.unparse(fin.target) != 'pid':
             bad.append('re-assembly `for pid in range(len(pid_result_list_map)): result_list += '
                        'pid_result_list_map[pid]` not found')
+        for n_ in ast.walk(par):
+            if isinstance(n_, ast.Call) and ast.unparse(n_.func) in ('mp.Queue', 'mp.SimpleQueue', 'mp.JoinableQueue',
+                                                                     'mp.Pipe') \
+                    and (n_.args or n_.keywords or ast.unparse(n_.func) != 'mp.Queue'):
+                bad.append('queue construction other than the unbounded mp.Queue(): ' + ast.unparse(n_))
     except Exception as ex:  # noqa
         bad.append(f'cannot analyse {path}: {type(ex).__name__}: {ex}')
-    ctx.count('structure-checks', 7)
+    ctx.count('structure-checks', 8)
     for b in bad:
         ctx.broken.append({'kind': 'structure', 'file': 'skyllh/core/multiproc.py', 'error': b})
 
@@ -993,7 +1055,7 @@ def replay(ctx, rp):
                     nlog=d.get('nlog') or 0,
                     faults=[{k: v for k, v in f.items() if k != 'triggers'} for f in d.get('faults') or []],
                     seed=d.get('seed'), trials=d.get('trials', False), bulk=d.get('bulk') or (),
-                    interactive=d.get('interactive', False))
+                    interactive=d.get('interactive', False), pad=d.get('pad') or ())
         for x in ('func', 'pause', 'reuse_args'):
             if d.get(x) is not None:
                 c[x] = d[x]
@@ -1007,7 +1069,7 @@ def replay(ctx, rp):
                 late=case.get('late', ()), nlog=case.get('nlog', 0),
                 faults=[{k: v for k, v in f.items() if k != 'triggers'} for f in case.get('faults', [])],
                 seed=case.get('seed'), trials=case.get('trials', False), bulk=case.get('bulk', ()),
-                interactive=case.get('interactive', False))
+                interactive=case.get('interactive', False), pad=case.get('pad') or ())
     cases = [c, c] if c['seed'] is not None else [c]
     obs = run_impl(cases, ctx.budget(20, 60), nproc=1)
     ctx.sample({'case': c, 'observed': obs[0]})
